@@ -49,6 +49,32 @@ GuardsOKWith(d, f, b, rem, fromCoefficients) ==
         /\ RemDomain(d, f, b, rem) \div b <= m \div (f ^ L)
 GuardsOK(d, f, b, rem) == GuardsOKWith(d, f, b, rem, TRUE)
 
+\* ---- degree bounds with any number of coefficients --------------------------------------------------------------
+\* FriVerifier::new takes the bound as a number: m = bound + 1 coefficients need not be a power of two.  The prover works over the
+\* domain NextPow2F(m) * b and always sends RemSent = (last layer size) / b remainder coefficients (a power of two); for a polynomial
+\* with m coefficients those at index >= m / f^L are zero.  "max_poly_degree inconsistent with the number of layers and the folding
+\* factor" is the documented error DegreeTruncation, so the claim is made for bounds that stay divisible at every layer.
+CoefDomain(m, b) == NextPow2F(m) * b
+Divisible(m, f, L) == \A j \in 1..L : (m \div (f ^ (j - 1))) % f = 0
+RemSent(d, f, b, rem) == RemDomain(d, f, b, rem) \div b
+RemAllowed(m, f, L) == m \div (f ^ L)
+\* the remainder-degree check of the verifier for a polynomial whose highest non-zero coefficient has index top (its image in the
+\* remainder has index top \div f^L), in three variants:
+\*   "zerotail" - no non-zero coefficient at an index >= RemAllowed (the code after the fix)
+\*   "length"   - number of coefficients sent <= RemAllowed (the code before the fix: rejects every proof when m is not a power of two)
+\*   "domain"   - number of coefficients sent <= last layer size / blowup (a "simplification" that no longer enforces the bound)
+RemCheckAccepts(variant, top, m, d, f, b, rem) ==
+    LET L == NumLayers(d, f, b, rem) IN
+    CASE variant = "zerotail" -> top \div (f ^ L) < RemAllowed(m, f, L)
+      [] variant = "length"   -> RemSent(d, f, b, rem) <= RemAllowed(m, f, L)
+      [] OTHER                -> TRUE
+InBoundClaim(m, f, b, rem) ==
+    LET d == CoefDomain(m, b) IN WellFormed(d, f, b, rem) /\ Divisible(m, f, NumLayers(d, f, b, rem))
+\* completeness: a polynomial of degree exactly the bound passes;  soundness: every excess degree within the domain's coefficient range is rejected
+BoundComplete(variant, m, f, b, rem) == InBoundClaim(m, f, b, rem) => RemCheckAccepts(variant, m - 1, m, CoefDomain(m, b), f, b, rem)
+BoundSound(variant, m, f, b, rem) ==
+    InBoundClaim(m, f, b, rem) => \A top \in m..(NextPow2F(m) - 1) : ~RemCheckAccepts(variant, top, m, CoefDomain(m, b), f, b, rem)
+
 \* ---- Part B ---------------------------------------------------------------------------------------------------
 Strategies == {"honest", "far", "degplus", "corrupt", "tamper", "wrongalpha", "omit", "swap", "adaptive"}
 \* does the strategy commit honestly to every folded layer of the function it starts from?
